@@ -51,6 +51,11 @@ func init() {
 		ExtraCfg: func(tier string) string { return "  Tier = \"" + tier + "\"\n" }}
 }
 
+func init() {
+	families["C04"] = &rt.Family{Prop: "C04", Module: "MC_C04", PackSize: 8,
+		Rule: "units = every subset of {a,b,c,n,zz} as `required` of an object with properties a:integer, b:[string,null], c:integer with default, n:nested object with its own required key (zz undeclared) x 9 container contexts (root, property, array item, definition, items of an array definition, 3 allOf shapes incl. a required-only branch and a $ref branch, anyOf); documents = every assignment of absent/present/null to the keys (108 per unit, 180 for anyOf). distinct_nontrivial = distinct (unit, document) pairs with a definite reference verdict"}
+}
+
 func hasMult(u *rt.Unit) bool {
 	b := fmt.Sprint(u.Raw["schema"], u.Raw["defs"])
 	return containsStr(b, "multipleOf")
